@@ -1380,6 +1380,22 @@ for _k in ("ktensor", "tensor", "sptensor", "ttensor"):
     _mkN(_k)
 
 
+@row("sptenmat.__setitem__:wrong-number-of-values", (2, 3))
+def _(e):
+    # several positions, some of them stored already; fewer or more values than positions
+    S = e.holder("sptensor")
+    M = S.to_sptenmat(np.array([0]))
+    r_, c_ = M.shape
+    rows = list(range(min(2, r_)))
+    cols = list(range(min(2, c_)))
+    n = len(rows) * len(cols)
+    k = [max(1, n - 1) if n > 1 else 2, n + 1, n + 3][int(e.rng.integers(0, 3))]
+    vals = np.arange(1.0, k + 1.0) + 6.0
+    if int(e.rng.integers(0, 2)):
+        vals = vals.reshape(-1, 1)
+    return "sptenmat.__setitem__", M.__setitem__, ((rows, cols), vals), {}, M, {"values": "fewer" if k < n else "more"}
+
+
 @row("sptenmat.__setitem__:position-outside-the-matrix", (2, 3))
 def _(e):
     S = e.holder("sptensor")
